@@ -90,6 +90,7 @@ struct GenOptions {
   bool linear_only = false;
   bool tag_objectives = false;    // C12: objective i gets linear tags 1000(i+1)+j, constant 0.5+i, nl tag 7000+i
   int max_depth = 3;
+  int extra_ranges = 0;           // that many plain linear range rows appended after the generated ones
 };
 
 Model generate(sim::Rng& rng, const GenOptions& opt);
